@@ -56,7 +56,7 @@ static inline void gen_ilu_options(Rng &r, Op &o) {
 static inline std::string op_brief(const Op &o) {
     std::ostringstream s; s << o.kind;
     if (o.kind == "gssvx" || o.kind == "gsisx") s << "(F" << o.fact << ",T" << o.trans << ",E" << o.equil << ",nrhs" << o.nrhs << ",lw" << o.lwork << (o.vchange.empty() ? "" : "," + o.vchange) << (o.faults.empty() ? "" : ",fault") << ")";
-    else if (o.kind == "pipe" || o.kind == "ipipe") s << "(st" << o.stages << ",lw" << o.lwork << ")";
+    else if (o.kind == "pipe" || o.kind == "ipipe") s << "(F" << o.fact << ",st" << o.stages << ",lw" << o.lwork << ")";
     else if (o.kind == "bfactor" || o.kind == "bsolve" || o.kind == "bfree") s << "(h" << o.handle << ")";
     return s.str();
 }
